@@ -111,7 +111,11 @@ def gen_nested_case(rng, prop="C03"):
         inner = [again] + [emit for _ in range(rng.randrange(1, 3))] + ([[6, []]] if rng.random() < 0.3 else []) + [[5]]
         opener = [[4, 11, 0, opt(rng.choice([None, src]))]] + ([emit] if rng.random() < 0.4 else [])
         bodies = [opener, inner, [[10, 1]], [[10, 2]]]
-        setup = [0, [8, 10, 0, 0], [8, 11, 1, 1], [8, 1, 2, 2], [8, 2, 3, 3], [7, src]]
+        setup = [0, [8, 10, 0, 0], [8, 11, 1, 1], [8, 1, 2, 2], [8, 2, 3, 3]]
+        if rng.random() < 0.6:
+            setup.append([7, src])
+        # else: the source is registered ONLY inside the first nested loop(s); once those are closed it belongs to no level:
+        # what it emits in a later nested loop goes to that (the active) loop, not to level 0
         if rng.random() < 0.5:
             setup.append([12, 5])
         for _ in range(rng.randrange(2, 5)):
